@@ -30,7 +30,7 @@ package libmem
 //@    (a.journal != nil ==> a.journal.updates != a.users && a.journal.reverts != a.users) &&
 //@    (forall z NodeMask :: z in a.zones ==> a.zones[z] != nil && a.zones[z].users != nil) &&
 //@    (forall z1 NodeMask, z2 NodeMask :: z1 in a.zones && z2 in a.zones && z1 != z2 ==> a.zones[z1] != a.zones[z2] && a.zones[z1].users != a.zones[z2].users) &&
-//@    (forall id string :: id in a.users ==> a.users[id] in a.zones && id in a.zones[a.users[id]].users) &&
+//@    (forall id string :: id in a.users ==> a.users[id] != 0 && a.users[id] in a.zones && id in a.zones[a.users[id]].users) &&
 //@    (forall z NodeMask, id string :: z in a.zones && id in a.zones[z].users ==> id in a.users && a.users[id] == z && a.zones[z].users[id] != nil && a.zones[z].users[id].id == id)
 
 // Formatting helpers used only in log messages (declared, not verified).
@@ -42,7 +42,7 @@ package libmem
 //@ func (*Allocator).zoneCapacity ints=bv64 tags=C06
 
 //@ func (*Allocator).zoneAssign ints=bv64
-//@   requires awf(a) && req != nil && !(req.id in a.users)
+//@   requires awf(a) && req != nil && !(req.id in a.users) && zone != 0
 //@   modifies a.zones[*], a.users[*], req.zone, a.journal.updates[*] if a.journal != nil, a.journal.reverts[*] if a.journal != nil,
 //@            a.zones[zone].users[*] if zone in a.zones
 //@   ensures[C06] awf(a)
@@ -53,6 +53,7 @@ package libmem
 //@   ensures[C06] a.journal != nil ==> dom(a.journal.updates) == upd(old(dom(a.journal.updates)), req.id, true) && vals(a.journal.updates) == upd(old(vals(a.journal.updates)), req.id, zone)
 //@   ensures[C06] a.journal != nil && old(req.id in a.journal.reverts) ==> dom(a.journal.reverts) == old(dom(a.journal.reverts)) && vals(a.journal.reverts) == old(vals(a.journal.reverts))
 //@   ensures[C06] a.journal != nil && !old(req.id in a.journal.reverts) ==> dom(a.journal.reverts) == upd(old(dom(a.journal.reverts)), req.id, true) && vals(a.journal.reverts) == upd(old(vals(a.journal.reverts)), req.id, 0)
+//@   ensures[C06] a.journal != nil ==> forall id string :: origd(a, id) == old(origd(a, id)) && origv(a, id) == old(origv(a, id))
 
 //@ func (*Allocator).zoneRemove ints=bv64
 //@   requires awf(a)
@@ -65,9 +66,10 @@ package libmem
 //@   ensures[C06] hit ==> req.zone == 0
 //@   ensures[C06] hit && a.journal != nil && old(id in a.journal.reverts) ==> dom(a.journal.reverts) == old(dom(a.journal.reverts)) && vals(a.journal.reverts) == old(vals(a.journal.reverts))
 //@   ensures[C06] hit && a.journal != nil && !old(id in a.journal.reverts) ==> dom(a.journal.reverts) == upd(old(dom(a.journal.reverts)), id, true) && vals(a.journal.reverts) == upd(old(vals(a.journal.reverts)), id, zone)
+//@   ensures[C06] a.journal != nil ==> forall id string :: origd(a, id) == old(origd(a, id)) && origv(a, id) == old(origv(a, id))
 
 //@ func (*Allocator).zoneMove ints=bv64
-//@   requires awf(a) && req != nil && (req.id in a.users ==> a.zones[a.users[req.id]].users[req.id] == req)
+//@   requires awf(a) && req != nil && zone != 0 && (req.id in a.users ==> a.zones[a.users[req.id]].users[req.id] == req)
 //@   let had = req.id in a.users
 //@   let from = a.users[req.id]
 //@   let same = had && from == zone
@@ -80,3 +82,26 @@ package libmem
 //@   ensures[C06] !same && a.journal != nil && old(req.id in a.journal.reverts) ==> dom(a.journal.reverts) == old(dom(a.journal.reverts)) && vals(a.journal.reverts) == old(vals(a.journal.reverts))
 //@   ensures[C06] !same && a.journal != nil && !old(req.id in a.journal.reverts) ==> dom(a.journal.reverts) == upd(old(dom(a.journal.reverts)), req.id, true) && vals(a.journal.reverts) == upd(old(vals(a.journal.reverts)), req.id, had ? from : 0)
 //@   ensures[C06] same && a.journal != nil ==> dom(a.journal.updates) == old(dom(a.journal.updates)) && vals(a.journal.updates) == old(vals(a.journal.updates)) && dom(a.journal.reverts) == old(dom(a.journal.reverts)) && vals(a.journal.reverts) == old(vals(a.journal.reverts))
+//@   ensures[C06] a.journal != nil ==> forall id string :: origd(a, id) == old(origd(a, id)) && origv(a, id) == old(origv(a, id))
+
+// ---- journal life cycle ---------------------------------------------------------------------------------
+// The assignment view a transaction started from is recoverable from the journal:
+//   orig(id) = reverts[id] (0 = was unassigned) if the journal has an entry for id, else the current users[id].
+
+//@ pure origd(a *Allocator, id string) bool = (a.journal != nil && id in a.journal.reverts) ? a.journal.reverts[id] != 0 : (id in a.users)
+//@ pure origv(a *Allocator, id string) NodeMask = (a.journal != nil && id in a.journal.reverts) ? a.journal.reverts[id] : a.users[id]
+
+//@ func (*Allocator).startJournal ints=bv64
+//@   requires awf(a)
+//@   modifies a.journal if a.journal == nil
+//@   ensures[C06] old(a.journal) != nil ==> result != nil && a.journal == old(a.journal)
+//@   ensures[C06] old(a.journal) == nil ==> result == nil && fresh(a.journal) && fresh(a.journal.updates) && fresh(a.journal.reverts)
+//@   ensures[C06] old(a.journal) == nil ==> forall id string :: !(id in a.journal.updates) && !(id in a.journal.reverts)
+//@   ensures[C06] awf(a)
+
+//@ func (*Allocator).commitJournal ints=bv64
+//@   requires awf(a) && a.journal != nil && req != nil
+//@   modifies a.journal, a.journal.updates, a.journal.updates[*]
+//@   ensures[C06,C07] a.journal == nil && awf(a)
+//@   ensures[C06,C07] !(req.id in result)
+//@   ensures[C06,C07] forall id string :: id != req.id ==> (id in result) == old(id in a.journal.updates) && result[id] == old(a.journal.updates[id])
